@@ -10,6 +10,7 @@ import PasfmtModel.Proofs.SpacingLayout
 import PasfmtModel.Proofs.SpacingLe
 import PasfmtModel.Proofs.WrapStageProps
 import PasfmtModel.Proofs.PipelineFullProps
+import PasfmtModel.Proofs.CanonStage
 
 namespace Pasfmt.C08
 
@@ -155,5 +156,37 @@ theorem no_spaces_at_line_start (solve : Nat → Nat → Option Sol) (cfg : Conf
 theorem no_spaces_at_line_start_full (cfg : Config) (lines : List Line) (ft ft' : FT) (sols : List (Nat × Nat × Sol))
     (h : wrapStageFull cfg lines ft = some (ft', sols)) : ∀ t ∈ ft', t.fmt.nl > 0 → t.fmt.sp = 0 :=
   wrapStageFull_no_spaces_at_line_start cfg lines ft ft' sols h
+
+/-- `canonFmt` is the driver's `canonFmtB` -/
+theorem canonFmt_eq (f : FmtData) : canonFmt f = canonFmtB f := rfl
+
+/-- **Canonical counters after the wrapper stage with the search inside, whatever the search returns**: if before
+    the stage every token that is not kept verbatim has at most one space before it and the tokens already final (the
+    end-of-file token) have canonical counters, and every other such token lies in a line for which a first-phase
+    solution was applied (`allWritten`), then after the stage every token that is not kept verbatim has canonical
+    counters: at most two line breaks, no spaces at a line start, no indentation without a line break, at most one
+    space otherwise.  With `gap_shape` and `indent_whole_units` this is the shape of every gap the reconstructor emits. -/
+theorem canonical_counters_after_stage (cfg : Config) (lines : List Line) (W0 : Nat → Bool) (ft ftz : FT)
+    (sols : List (Nat × Nat × Sol))
+    (h : CanonOn (fun j => W0 j = true) ft)
+    (h1 : wrapStageFull cfg lines ft = some (ftz, sols))
+    (hall : allWritten lines W0 ft.length sols = true) :
+    ∀ t ∈ ftz, t.fmt.ignored = false → canonFmt t.fmt = true :=
+  wrapStageFull_canon cfg lines W0 ft ftz sols h h1 hall
+
+/-- **C08 for the closed model of the whole formatter, decided per input.**  `canonPremisesB cfg alnum s`
+    (Model/LayoutCheck.lean, executable) says: in the run on `s`, before the wrapper stage every token not kept
+    verbatim has at most one space before it (a theorem when no line comment shares its line with code:
+    `spacing_at_most_one`), and every such token is the end-of-file token written by the end-of-file rule or lies in a
+    line for which the wrapper found a solution in its first phase.  Whenever it answers `true`, the output is the
+    reconstruction of a state whose non-verbatim tokens all have canonical counters - hence (by `gap_shape`) between
+    two tokens there is nothing, one space, or one or two line breaks followed by whole indentation units.  It fails
+    exactly where the wrapper reports "no solution" for a line (known finding F34).  The driver tallies it on every
+    case of the `full` stream (`info_c08`). -/
+theorem C08_format_full_checked (cfg : Config) (alnum : Bytes → Bool) (s : Bytes)
+    (h : canonPremisesB cfg alnum s = true) :
+    ∃ ftz, formatFull cfg alnum s = some (reconstruct cfg.settings ftz) ∧
+      ∀ t ∈ ftz, t.fmt.ignored = false → canonFmt t.fmt = true :=
+  formatFull_canon_checked cfg alnum s h
 
 end Pasfmt.C08
